@@ -50,7 +50,7 @@ def _alpha(kind, tier, seed):
     """shared pose alphabet + members within 1e-6 of the identity (defeat tolerance-based 'is identity' shortcuts)."""
     ps = A.poses(kind, tier, seed)
     if kind == "SE2":
-        ps = ps + [[0.0, 0.0, 1e-7], [3e-7, -2e-7, -4e-7], [0.7, -1.3, 1e-7]]
+        ps = ps + [[0.0, 0.0, 1e-7], [3e-7, -2e-7, -4e-7], [0.7, -1.3, 1e-7], [0.0, 0.0, 9e-9], [0.0, 0.0, A.PI / 2 - 9e-9], [0.0, 0.0, -A.PI / 2 + 7e-9]]
     elif kind == "SE3":
         tiny = A.unit([2e-7, -3e-7, 1e-7, 1.0])
         ps = ps + [[0.0, 0.0, 0.0] + tiny, [3e-7, -2e-7, 1e-7] + tiny, [0.7, -1.3, 2.1] + tiny, [0.0, 0.0, 0.0] + [-x for x in tiny]]
@@ -69,7 +69,7 @@ def run_chunk(chunk, tier, seed):
     elif typ == "point":
         n = 2 if kind in ("R2", "SE2") else 3
         for a in ps:
-            for p in A.T(n, tier, seed):
+            for p in A.T(n, tier, seed) + [[3.0, -4.0, 5.0][:n]]:
                 _do(acc, {"t": "point", "kind": kind, "a": a, "p": p})
     else:
         # forward and then backward through the alphabet: results must not depend on which pose was asked before
@@ -312,6 +312,19 @@ def _eval_inner(case):
                 pass
             if not np.array_equal(np.asarray(getattr(a, name)(p), dtype=float), keep):
                 ck.msgs.append("%s: editing a returned matrix in place changes what later calls return (shared result object)" % name)
+        # an integer-typed point array is the same point
+        if all(float(x) == int(x) for x in case["p"]):
+            pi_ = np.array([int(x) for x in case["p"]])
+            for name in ("jacobian_self_oplus_point_wrt_self", "jacobian_self_oplus_point_wrt_point"):
+                Jf = np.asarray(getattr(a, name)(p), dtype=float)
+                try:
+                    Ji_ = np.asarray(getattr(a, name)(pi_), dtype=float)
+                except Exception as ex:
+                    ck.msgs.append("%s raised %s for an integer-typed point array" % (name, type(ex).__name__))
+                    continue
+                ck.nops += 1
+                if Ji_.shape != Jf.shape or float(np.max(np.abs(Ji_ - Jf))) > 1e-12 * sc:
+                    ck.msgs.append("%s: integer-typed point array %r gives %r, float point gives %r" % (name, pi_.tolist(), Ji_.tolist(), Jf.tolist()))
         J2 = np.asarray(a.jacobian_self_oplus_point_wrt_point(p), dtype=float)
         if ck.shape("jacobian_self_oplus_point_wrt_point", J2, (pd, pd)):
             for k in range(pd):
